@@ -41,6 +41,27 @@ def mk_binning(b: dict):
             return [pairs[0][0]] + [p[1] for p in pairs]
         if form == "pairs" and b.get("ire", True):
             return np.array(pairs)
+        if form == "derived_obj" and pairs:
+            # a binning object obtained by indexing another one whose representations were already used once:
+            # gaps of the target are filled in the parent (so the parent is consecutive where the target is not), and
+            # a detached extra bin is appended (so the parent is gapped where the target may be consecutive)
+            parent_pairs, keep = [], []
+            for i, pr in enumerate(pairs):
+                if i > 0 and pairs[i - 1][1] != pr[0]:
+                    parent_pairs.append([pairs[i - 1][1], pr[0]])
+                keep.append(len(parent_pairs))
+                parent_pairs.append(pr)
+            parent_pairs.append([pairs[-1][1] + 1.0, pairs[-1][1] + 2.0])
+            parent = StaticBinning(np.array(parent_pairs).reshape(-1, 2), includes_right_edge=b.get("ire", True))
+            parent.is_consecutive(); parent.bins
+            try:
+                parent.numpy_bins
+            except Exception:
+                pass
+            Histogram1D(parent)                       # the parent has been used in a histogram
+            if keep == list(range(len(pairs))):
+                return parent[:len(pairs)]
+            return parent[np.array(keep)]
         if form == "numpy_obj" and consecutive and pairs:
             return NumpyBinning([pairs[0][0]] + [p[1] for p in pairs], includes_right_edge=b.get("ire", True))
         return StaticBinning(np.array(pairs).reshape(-1, 2), includes_right_edge=b.get("ire", True))
